@@ -43,6 +43,8 @@ def rand_constraints(rng, stations):
     n = len(stations)
     cons = []
     m = rng.randint(1, 5)
+    if rng.random() < 0.06:
+        return []                          # a network that never had a constraint (constraint_matrix is None)
     # three-phase groups first (by phase angle), then arbitrary combinations
     groups = {}
     for i, st in enumerate(stations):
@@ -69,6 +71,11 @@ def gen_input(rng, tier):
     inp["constraints"] = rand_constraints(rng, inp["stations"])
     m = len(inp["constraints"])
     names = list(range(m))
+    if m == 0:
+        inp["cc_queries"] = [[False, None], [True, None], [False, []], [False, [900]]]
+        inp["nema_queries"] = [[900, 901, 902], []]
+        inp["thresholds"] = [0.1, 0.0, -1.0]
+        return inp
     queries = [[False, None], [True, None]]
     for _ in range(4):
         k = rng.randint(0, m + 1)
@@ -113,15 +120,22 @@ def analyse(inp):
                    volts=[float(v) for v in net._voltages],
                    phases=[float(p) for p in net._phase_angles],
                    cindex=[num[nm] for nm in index],
-                   cmat=[[float(x) for x in row] for row in net.constraint_matrix],
+                   cmat=[[float(x) for x in row] for row in net.constraint_matrix] if net.constraint_matrix is not None else [],
+                   cmat_present=net.constraint_matrix is not None,
                    evh=[[float(ev.requested_energy), float(ev.energy_delivered)] for ev in sim.ev_history.values()],
                    iteration=int(sim.iteration))
         out["agg_current"] = [float(x) for x in an.aggregate_current(sim)]
         out["agg_power"] = [float(x) for x in an.aggregate_power(sim)]
         cc = []
         for flag, ids in inp["cc_queries"]:
-            d = an.constraint_currents(sim, return_magnitudes=flag,
-                                       constraint_ids=None if ids is None else [cname(i) for i in ids])
+            try:
+                d = an.constraint_currents(sim, return_magnitudes=flag,
+                                           constraint_ids=None if ids is None else [cname(i) for i in ids])
+            except TypeError as e:
+                if net.constraint_matrix is not None:
+                    raise
+                cc.append("raise:TypeError")
+                continue
             items = []
             for k, v in d.items():
                 v = np.asarray(v)
@@ -149,6 +163,10 @@ def analyse(inp):
                     nema.append([None if (x != x) else float(x) for x in np.asarray(r)])
                 except (KeyError, ValueError) as e:
                     nema.append("raise:" + type(e).__name__)
+                except TypeError as e:
+                    if net.constraint_matrix is not None:
+                        raise
+                    nema.append("raise:TypeError")
         out["nema"] = nema
         dts = an.datetimes_array(sim)
         start = np.datetime64(sim.start.replace(tzinfo=None))
@@ -158,8 +176,21 @@ def analyse(inp):
 
 
 def run_impl(inp):
-    impl = c02.run_history(inp, extra=analyse(inp))
+    base = analyse(inp)
+
+    def guarded(sim, station_ids, sess_num):
+        # an analysis function raising on a completed simulation with existing constraints is itself a finding
+        try:
+            return base(sim, station_ids, sess_num)
+        except Exception as e:  # noqa
+            import traceback
+            return dict(error="%s: %s" % (type(e).__name__, e), where=traceback.format_exc().splitlines()[-3:])
+    impl = c02.run_history(inp, extra=guarded)
     return impl
+
+
+FAILING_CASE = ("{| c_traj := mk_traj 0%nat [] [] [] [] [] [] 0%nat 1 true; i_agg_current := [1]; i_agg_power := []; i_cc := [];\n"
+                "   i_requested := 0; i_delivered := 0; i_proportion := None; i_met := []; i_nema := []; i_minutes := [] |}")
 
 
 # ------------------------------------------------------------------------------------------------
@@ -179,14 +210,16 @@ def phasors(phases):
 
 def case_coq(inp, ex):
     traj = ("{| t_width := %d%%nat; t_rates := %s; t_volts := %s; t_phasor := %s; t_cindex := %s; t_cmat := %s;\n"
-            "      t_evh := %s; t_iter := %d%%nat; t_period := %s |}") % (
+            "      t_evh := %s; t_iter := %d%%nat; t_period := %s; t_cmat_present := %s |}") % (
         ex["width"], coq_list([coq_list([q(x) for x in row]) for row in ex["rates"]]),
         coq_list([q(v) for v in ex["volts"]]),
         coq_list(["(%s, %s)" % (q(c), q(s)) for c, s in phasors(ex["phases"])]),
         coq_list([zlit(i) for i in ex["cindex"]]),
         coq_list([coq_list([q(x) for x in row]) for row in ex["cmat"]]),
-        coq_list(["(%s, %s)" % (q(a), q(b)) for a, b in ex["evh"]]), ex["iteration"], q(inp["period"]))
-    cc = coq_list(["(%s, %s, %s)" % (coq_bool(flag), ids_coq(ids), coq_list([series_coq(it) for it in items]))
+        coq_list(["(%s, %s)" % (q(a), q(b)) for a, b in ex["evh"]]), ex["iteration"], q(inp["period"]),
+        coq_bool(ex["cmat_present"]))
+    cc = coq_list(["(%s, %s, %s)" % (coq_bool(flag), ids_coq(ids),
+                                     "None" if isinstance(items, str) else "(Some %s)" % coq_list([series_coq(it) for it in items]))
                    for (flag, ids), items in zip(inp["cc_queries"], ex["cc"])])
     met = coq_list(["(%s, %s)" % (q(t), coq_opt(v, q)) for t, v in zip(ex["thresholds_used"], ex["met_used"])])
     nema = coq_list(["(%s, %s)" % (coq_list([zlit(i) for i in ids]),
@@ -205,6 +238,9 @@ def make_case(inp):
     if not impl["ok"] or "extra" not in impl:
         return None
     ex = impl["extra"]
+    if "error" in ex:
+        return dict(input=inp, impl=dict(extra=ex, ok=True), coq=FAILING_CASE, ambiguous=False, kind="analysis-raised",
+                    sig=[inp["stations"], inp["sessions"], inp["script"], inp["constraints"]], nontrivial=True)
     amb = False
     # thresholds within 1e-9 of a remaining demand are float-ambiguous: drop them
     used_t, used_m = [], []
@@ -219,6 +255,8 @@ def make_case(inp):
     # a NEMA mean that is tiny but non-zero is decided differently by the 2^-60 square root
     for ids, r in zip(inp["nema_queries"], ex["nema"]):
         if isinstance(r, str):
+            continue
+        if isinstance(ex["cc"][0], str):
             continue
         mags = [dict((it[0], it[2]) for it in ex["cc"][0])[i] for i in ids]
         for t in range(ex["width"]):
@@ -252,6 +290,8 @@ def close(a, b, tol=1e-9):
 
 def monitor(case):
     inp, ex = case["input"], case["impl"]["extra"]
+    if "error" in ex:
+        return "an analysis function raised on a completed simulation: %s (%s)" % (ex["error"], " | ".join(ex.get("where", [])))
     rates, volts, W = ex["rates"], ex["volts"], ex["width"]
     n = len(volts)
     ph = phasors(ex["phases"])
@@ -271,9 +311,13 @@ def monitor(case):
         return re, im
     index = ex["cindex"]
     for (flag, ids), items in zip(inp["cc_queries"], ex["cc"]):
+        if isinstance(items, str):
+            if ex["cmat_present"]:
+                return "constraint_currents(ids=%r) raised %s" % (ids, items)
+            continue          # observation: TypeError on a network without constraint matrix (outside the property's scope)
         want = [c for c in index if ids is None or c in ids]
         got = [it[0] for it in items]
-        if got != want:
+        if sorted(got) != sorted(want):
             return "constraint_currents(ids=%r) returned keys %r, requested existing ids are %r" % (ids, got, want)
         for it in items:
             j = index.index(it[0])
@@ -285,8 +329,8 @@ def monitor(case):
                             ids, it[0], t, it[2][t], math.hypot(re, im))
                 else:
                     if not (close(it[2][t], re) and close(it[3][t], im)):
-                        return "constraint_currents(ids=%r)[%d][%d] = %r%+rj, phase-aware sum = %r%+rj" % (
-                            ids, it[0], t, it[2][t], it[3][t], re, im)
+                        return "constraint_currents(ids=%r)[%d][%d] = %r, phase-aware sum = %r" % (
+                            ids, it[0], t, complex(it[2][t], it[3][t]), complex(re, im))
     req = float(sum(F(a) for a, _ in ex["evh"]))
     dele = float(sum(F(b) for _, b in ex["evh"]))
     if not close(ex["requested"], req):
@@ -301,7 +345,7 @@ def monitor(case):
             return "proportion_of_demands_met(threshold=%r) = %r, %d of %d sessions are within the threshold" % (
                 t, v, cnt, len(ex["evh"]))
     for ids, r in zip(inp["nema_queries"], ex["nema"]):
-        bad = (not ids) or any(i not in index for i in ids)
+        bad = (not ids) or any(i not in index for i in ids) or not ex["cmat_present"]
         if isinstance(r, str):
             if not bad:
                 return "current_unbalance(%r) raised %s" % (ids, r)
